@@ -13,6 +13,7 @@ import (
 	"os"
 	"sort"
 	"sync"
+	"sync/atomic"
 	"time"
 
 	"github.com/gopcua/opcua"
@@ -59,7 +60,7 @@ func (s *c27srv) handle(c *scriptsrv.Conn, reqID uint32, r ua.Request) (ua.Respo
 		}
 		s.mu.Unlock()
 		go func() {
-			if kind == 'O' || kind == 'E' {
+			if kind == 'O' || kind == 'E' || kind == 'B' {
 				<-s.releaseCh // answered only when the harness says so (after the API calls have been issued)
 			} else {
 				time.Sleep(time.Duration(d) * time.Millisecond)
@@ -68,6 +69,14 @@ func (s *c27srv) handle(c *scriptsrv.Conn, reqID uint32, r ua.Request) (ua.Respo
 			if kind == 'o' || kind == 'O' {
 				resp = &ua.PublishResponse{ResponseHeader: hdr(), SubscriptionID: 1, AvailableSequenceNumbers: []uint32{},
 					NotificationMessage: &ua.NotificationMessage{SequenceNumber: uint32(k + 1), PublishTime: time.Now(), NotificationData: []*ua.ExtensionObject{}},
+					Results:             []ua.StatusCode{}, DiagnosticInfos: []*ua.DiagnosticInfo{}}
+			} else if kind == 'B' {
+				// a PublishResponse (not a fault) with a Bad ServiceResult that publish() does not special-case and
+				// SubscriptionID 0: the error concerns all subscriptions (notifyAllSubscriptionsOfError)
+				h := hdr()
+				h.ServiceResult = ua.StatusBadInternalError
+				resp = &ua.PublishResponse{ResponseHeader: h, SubscriptionID: 0, AvailableSequenceNumbers: []uint32{},
+					NotificationMessage: &ua.NotificationMessage{PublishTime: time.Now(), NotificationData: []*ua.ExtensionObject{}},
 					Results:             []ua.StatusCode{}, DiagnosticInfos: []*ua.DiagnosticInfo{}}
 			} else {
 				resp = scriptsrv.Fault(r, ua.StatusBadInternalError)
@@ -92,6 +101,65 @@ type c27obs struct {
 	Err         string `json:"err,omitempty"`
 }
 
+// c27Stress: many subscriptions, several goroutines that keep write-locking subMux (ForgetSubscription of ids that
+// are not registered), and a publish answer that concerns ALL subscriptions arriving in the middle. Every call must
+// keep returning. Done[i] = writer i returned after it was told to stop.
+func c27Stress(cs *Case, c *opcua.Client, sv *c27srv, ob *c27obs) {
+	ctx := context.Background()
+	notifs := make(chan *opcua.PublishNotificationData, 4096)
+	go func() {
+		for range notifs {
+		}
+	}()
+	for id := 1; id <= cs.P["nsubs"]; id++ {
+		if _, err := c.Subscribe(ctx, &opcua.SubscriptionParameters{Interval: time.Duration(1000+id) * time.Millisecond}, notifs); err != nil {
+			ob.Err = err.Error()
+			return
+		}
+	}
+	time.Sleep(200 * time.Millisecond) // the publish request is out
+	nw := cs.P["writers"]
+	done := make([]bool, nw)
+	var mu sync.Mutex
+	var stop int32
+	for w := 0; w < nw; w++ {
+		go func(w int) {
+			for atomic.LoadInt32(&stop) == 0 {
+				c.ForgetSubscription(ctx, uint32(100000+w))
+			}
+			mu.Lock()
+			done[w] = true
+			mu.Unlock()
+		}(w)
+	}
+	time.Sleep(50 * time.Millisecond)
+	close(sv.releaseCh)
+	time.Sleep(400 * time.Millisecond)
+	atomic.StoreInt32(&stop, 1)
+	time.Sleep(1500 * time.Millisecond)
+	mu.Lock()
+	ob.Done = append([]bool(nil), done...)
+	mu.Unlock()
+	sv.mu.Lock()
+	ob.Pubs = sv.pubs
+	ob.Outstanding = sv.held > 0
+	sv.mu.Unlock()
+	idsCh := make(chan []uint32, 1)
+	go func() { idsCh <- c.SubscriptionIDs() }()
+	select {
+	case ids := <-idsCh:
+		for _, x := range ids {
+			ob.Subs = append(ob.Subs, int(x))
+		}
+		sort.Ints(ob.Subs)
+	case <-time.After(1500 * time.Millisecond):
+		ob.SubsBlocked = true
+	}
+	if ob.Subs == nil {
+		ob.Subs = []int{}
+	}
+}
+
 // c27Run executes one program in THIS process (the caller runs it in a child).
 func c27Run(cs *Case) c27obs {
 	ob := c27obs{Case: cs}
@@ -114,6 +182,10 @@ func c27Run(cs *Case) c27obs {
 	ctx := context.Background()
 	if err := c.Connect(ctx); err != nil {
 		ob.Err = err.Error()
+		return ob
+	}
+	if cs.S["kind"] == "stress" {
+		c27Stress(cs, c, sv, &ob)
 		return ob
 	}
 	nops := len(cs.L) / 2
@@ -257,6 +329,10 @@ func c27Main(seed uint64, n int, replay string) {
 		// the witness of the (fixed) deadlock first: Subscribe 1; three Cancels of it while the publish answer is held
 		cases = append(cases, &Case{ID: 0, Op: "c27", L: []int{0, 1, 2, 1, 2, 1, 2, 1}, P: map[string]int{"seq": 1, "delay2": 30, "delay3": 60}, S: map[string]string{"script": "O"}})
 		cases = append(cases, &Case{ID: 1, Op: "c27", L: []int{0, 1, 0, 2, 0, 3, 0, 4}, P: map[string]int{"seq": 1}, S: map[string]string{"script": "O"}})
+		// a publish error for all subscriptions while several goroutines keep write-locking subMux
+		for k := 0; k < 3; k++ {
+			cases = append(cases, &Case{ID: len(cases), Op: "c27", P: map[string]int{"nsubs": 48, "writers": 4}, S: map[string]string{"script": "B", "kind": "stress"}})
+		}
 		for i := len(cases); i < n; i++ {
 			cases = append(cases, c27Gen(r, i))
 		}
